@@ -7,6 +7,13 @@ Design deviations (DESIGN.md section 4, C06):
   * R1 additionally decides that the scan over the required rows is exhaustive (no `break`, no
     `return` on a required row, skips only for rows that need no evaluation): the design's "a
     required dirty cell raises OrderError" is only true if the scan reaches every required row.
+    For the same reason it decides that the rows *counted* as required are exactly the first
+    sequence the scan iterates (same sequence, duplicates included): a required row that falls
+    past the count is treated as opportunistic and ends the non-evaluating visit silently.
+
+All clauses are decided on the inlined, alias-normalised form of the anchored functions (see the
+note at the top of c03.py and the helpers in _h_A.py): skip / raise / return conditions by
+path-sensitive reachability over atoms, never by the syntactic nesting of an `if`.
 """
 import ast
 from ..fn import World
@@ -302,6 +309,11 @@ def r1_scan(run, w, sc):
   body = sc.body_nodes(cfg)
   # (c2) the rows treated as required are exactly the first sequence of the chain
   fv = ex.expand(sc.flag_stmt.value)
+  if isinstance(fv, ast.IfExp) and is_const(fv.orelse, True):
+    # <i> < N if N else True  ==  not N or <i> < N
+    fv = ast.BoolOp(op=ast.Or(), values=[ast.UnaryOp(op=ast.Not(), operand=fv.test), fv.body])
+  elif isinstance(fv, ast.IfExp) and is_const(fv.body, True):
+    fv = ast.BoolOp(op=ast.Or(), values=[fv.test, fv.orelse])
   disj = fv.values if isinstance(fv, ast.BoolOp) and isinstance(fv.op, ast.Or) else [fv]
   counts, none_case = [], []
   for d in disj:
@@ -319,6 +331,9 @@ def r1_scan(run, w, sc):
       if isinstance(op, ast.Eq) and is_const(l, 0):
         none_case.append(r)
         continue
+    if isinstance(d, ast.UnaryOp) and isinstance(d.op, ast.Not) and \
+        isinstance(d.operand, ast.UnaryOp) and isinstance(d.operand.op, ast.Not):
+      d = d.operand.operand
     if isinstance(d, ast.UnaryOp) and isinstance(d.op, ast.Not):
       none_case.append(d.operand)
       continue
